@@ -106,6 +106,10 @@ func init() {
 		if err != nil {
 			return "", err
 		}
+		callTree, err := constInt(lim, "MaxSubroutineCallTree")
+		if err != nil {
+			return "", err
+		}
 		callGuards := countGuards(sub, "len(i.callStack)>maxCallStackExceedCount")
 		rg := "i.ctx.Restarts+1>limitations.MaxVarnishRestarts"
 		restartGuards := countGuards(stm, rg) + countGuards(itp, rg)
@@ -120,6 +124,7 @@ func init() {
 		b.WriteString("(* GENERATED from interpreter/subroutine.go, limitations/limitations.go, statement.go, interpreter.go, include.go by trans; do not edit *)\n")
 		fmt.Fprintf(&b, "Definition maxCallStackExceedCount : nat := %d.\n", depth)
 		fmt.Fprintf(&b, "Definition MaxVarnishRestarts : nat := %d.\n", restarts)
+		fmt.Fprintf(&b, "Definition MaxSubroutineCallTree : nat := %d.\n", callTree)
 		fmt.Fprintf(&b, "Definition call_guard_sites : nat := %d.\n", callGuards)
 		fmt.Fprintf(&b, "Definition restart_guard_sites : nat := %d.\n", restartGuards)
 		fmt.Fprintf(&b, "Definition include_guard_sites : nat := %d.\n", incGuards)
